@@ -20,7 +20,7 @@ def run(rep, tier, seed, replay_file=None):
     jobs = pc.IMPL_SMALL + [("FirstAdvance", "MC_firstadvance.cfg")]
     if not quick:
         jobs += pc.IMPL_FULL
-    if not pc.run_impl(rep, jobs, pc.C04_NOTE, par=3, workers=2, timeout=1500):
+    if not pc.run_impl(rep, jobs, pc.C04_NOTE, par=3, workers=2 if quick else 4, timeout=1500):
         return
     pc.run_mutations(rep, pc.MUT_C04)
 
@@ -37,7 +37,7 @@ def run(rep, tier, seed, replay_file=None):
     behs = replay.dedupe(behs + sim)
     races = pc.gen(rep, "Ctl_c04_race.cfg" if quick else "Ctl_c04_race_full.cfg",
                    "unsynchronised Close / cancel against free-running consumers, one configuration per construct")
-    races = [b for b in races if b["steps"][0]["op"].startswith("race-")]
+    races = [b for b in races if b["steps"][0]["op"] in ("race-close", "race-cancel")]
     if not behs or not races:
         return
     binary = harness.build(pc.BINARY)
